@@ -162,3 +162,43 @@ example : (runEvs {} [.call ⟨some 2, 7, .auto, false⟩, .call ⟨some 3, 7, .
     = [.created 0, .reused 0 2 3, .replaced 0 false 1, .replaced 1 true 2] := by decide
 
 end LokyModel.Reusable
+
+namespace LokyModel.Reusable
+
+/-- **A fresh instance is built from the arguments of the call that creates it** (first creation and replacement alike,
+    whatever `reuse` says and whatever the previous instance was built from), and that is what the module remembers. -/
+theorem C09_fresh_built_from_call (s : St) (a : Args) (r : Action) (s' : St) (h : getReusable s a = (r, s'))
+    (hfresh : match r with | .created _ => True | .replaced _ _ _ => True | _ => False) :
+    ∃ e, s'.exec = some e ∧ e.kwargs = a.kwargs ∧ e.started = false ∧ e.pids = [] := by
+  unfold getReusable at h
+  cases hw : wantedMax s a with
+  | none => simp [hw] at h; obtain ⟨rfl, _⟩ := h; simp at hfresh
+  | some mw =>
+    simp only [hw] at h
+    cases he : s.exec with
+    | none => simp [he, fresh] at h; obtain ⟨_, rfl⟩ := h; exact ⟨_, rfl, rfl, rfl, rfl⟩
+    | some e =>
+      simp only [he] at h
+      split at h
+      · simp [fresh] at h; obtain ⟨_, rfl⟩ := h; exact ⟨_, rfl, rfl, rfl, rfl⟩
+      · simp at h; obtain ⟨rfl, _⟩ := h; simp at hfresh
+
+/-- A reused instance keeps the configuration it was built with: `reuse=True` with different arguments resizes the live
+    instance and changes nothing else. -/
+theorem C09_reuse_keeps_configuration (s : St) (a : Args) (e : Exec) (i o n : Nat) (s' : St) (he : s.exec = some e)
+    (h : getReusable s a = (.reused i o n, s')) :
+    ∃ e', s'.exec = some e' ∧ e'.id = e.id ∧ e'.kwargs = e.kwargs ∧ e'.pids = e.pids := by
+  unfold getReusable at h
+  cases hw : wantedMax s a with
+  | none => simp [hw] at h
+  | some mw =>
+    simp only [hw, he] at h
+    split at h
+    · simp [fresh] at h
+    · simp at h; obtain ⟨_, rfl⟩ := h; exact ⟨_, rfl, rfl, rfl, rfl⟩
+
+/-- non-vacuity: `reuse=True` with changed arguments on a broken instance replaces it by one built from the new arguments -/
+example : (getReusable { exec := some { id := 0, maxWorkers := 2, kwargs := 1, broken := true, shutdown := true }, nextId := 1 }
+            { maxWorkers := none, kwargs := 2, reuse := .yes }).2.exec.map (·.kwargs) = some 2 := by decide
+
+end LokyModel.Reusable
